@@ -154,9 +154,10 @@ Theorem fresh_flow_adopts (St : Type) fee_ok energy_ok eff_priority_fee interval
   adopt St fee_ok energy_ok eff_priority_fee h f t = AOk.
 Proof. exact (ProofsAdmission.fresh_flow_adopts St fee_ok energy_ok eff_priority_fee interval_30 h s f t). Qed.
 
-(* 3c. the two halves composed: the verdict wash uses for an object IS Evaluate of its transaction on the wash's head
-      (eval_of); then every published executable is adoptable on that head up to the enumerated differences, and an
-      Evaluate drop names the clause of Evaluate that failed.  Premise static_ok: chain tag / delegator checked at
+(* 3c. the two halves composed: the verdict wash uses for an object is DEFINED as Evaluate of `view o` on the wash's
+      head (eval_of; `view : txobj -> txv`, the transaction inside a pooled object, is a parameter: nothing in the model
+      ties it to the object's hash/origin — the harness ties both halves to the code separately); then every published executable is adoptable on that head up to the enumerated differences, and an
+      Evaluate drop names the clause of Evaluate that failed.  Premise static_ok (a BARE premise: no step of the model establishes it): chain tag / delegator checked at
       admission and "not blocked" re-checked by wash — established by add(), NOT by Fill (Fill only checks the block
       list and resolvability): for Fill'ed transactions it is an assumption on Fill's caller. *)
 Theorem wash_published_adoptable (St : Type) fee_ok energy_ok eff_priority_fee interval_30 h s view pricing_of
@@ -181,9 +182,30 @@ Proof. exact (Compose.eval_drop_names_clause St fee_ok energy_ok interval_30 h s
 (* the executables displaced by the pool limit are the lowest priced ones *)
 Theorem limit_displaces_lowest_priced limit l nonexec kept over y :
   apply_limits limit (sort_desc l) nonexec = (kept, over) ->
-  In (hash y, RLimitExecTail) over -> In y (skipn limit (sort_desc l)) ->
+  In y (skipn limit (sort_desc l)) ->
   forall x, In x kept -> pgp_of y <= pgp_of x.
 Proof. exact (Compose.limit_displaces_lowest_priced limit l nonexec kept over y). Qed.
+
+(* ... and inside wash: when the remote executables alone exceed the limit, exactly the tail of the price-sorted list
+   is removed with RLimitExecTail, and every victim is priced no higher than every candidate that stays *)
+Theorem wash_displaces_lowest_priced env p :
+  let a := run_phase1 env p in
+  let sorted := sort_desc (p1_exec a) in
+  (w_limit env < length (p1_exec a))%nat ->
+  forall y, In y (skipn (w_limit env) sorted) ->
+    In (hash y, RLimitExecTail) (wr_removed (wash env p)) /\
+    forall x, In x (firstn (w_limit env) sorted) -> pgp_of y <= pgp_of x.
+Proof. exact (ProofsWash.wash_displaces_lowest_priced env p). Qed.
+
+(* RUnpayable with its energy condition (drop_reasons above only says "was not executable, Evaluate said executable"):
+   the candidate had no published pricing, or its payer's energy at the next block time is below pending + cost,
+   pending read from the pool q as it stood when the candidate's turn came in the promotion loop *)
+Theorem unpayable_energy_reason env p h :
+  In (h, RUnpayable) (wr_removed (wash env p)) ->
+  exists o' q, hash o' = h /\ executable o' = false /\
+    (price o' = None \/
+     exists pc, price o' = Some pc /\ w_energy env (payer pc) < aget (cost q) (payer pc) + pcost pc).
+Proof. exact (ProofsWash.unpayable_energy_reason env p h). Qed.
 
 (* the error path of wash (legacy base gas price unreadable: cut the pool to the limit) keeps the invariant *)
 Theorem wash_error_cut_keeps_inv limit p : inv p -> inv (wash_error_cut limit p).
@@ -259,6 +281,19 @@ Example admission_state_example :
   adopt bool (fun _ _ => true) ex_energy (fun _ _ => 0) ex_head (mkFlow bool 0 40000000 1000 true (fun i => if i =? 77 then Some false else None) 0) ex_tx = AKnownTx.
 Proof. vm_compute. repeat split; reflexivity. Qed.
 
+(* quota_bounded / no_lockout / empty_pool_clean applied: three adds under limit 2 by one account (the third is refused),
+   then everything removed *)
+Definition ex_steps2 : list step :=
+  [ SAdd (ex_o 1 10 None) false None 2 (fun _ => 0); SAdd (ex_o 2 10 None) false None 2 (fun _ => 0);
+    SAdd (ex_o 3 10 None) false None 2 (fun _ => 0); SRemove 1; SRemove 2 ].
+Example quota_example :
+  quota_of (objs (run (firstn 3 ex_steps2))) 10 <= 2 + 1 /\ quota (run (firstn 3 ex_steps2)) 10 = Some 2 /\
+  quota (run ex_steps2) 10 = None /\ aget (cost (run ex_steps2)) 10 = 0.
+Proof.
+  split; [apply quota_bounded; reflexivity|]. split; [vm_compute; reflexivity|].
+  apply empty_pool_clean. vm_compute. reflexivity.
+Qed.
+
 Print Assumptions bookkeeping_inv.
 Print Assumptions bookkeeping_unguarded_refuted.
 Print Assumptions promote_unguarded_differs_only_when_stale.
@@ -279,4 +314,7 @@ Print Assumptions eval_drop_names_clause.
 Print Assumptions limit_displaces_lowest_priced.
 Print Assumptions wash_error_cut_keeps_inv.
 Print Assumptions quota_bounded.
+Print Assumptions wash_displaces_lowest_priced.
+Print Assumptions unpayable_energy_reason.
+Print Assumptions quota_example.
 Print Assumptions is_chain_synced_iff.
